@@ -386,6 +386,11 @@ def dispatch(E, c, tc, args):
             d.items[k] = d.items[-1]
             d.items.pop()
             return x
+    if re.search(r"<impl \[.*\]>::reverse$", c, re.S) and len(args) == 1:
+        d = E.read_ref(ref_chain(E, args[0]))
+        if isinstance(d, VSeq):
+            d.items.reverse()
+            return UNIT
     if re.match(r"^std::vec::Vec::<.*>::remove$", c, re.S) and len(args) == 2 and isinstance(deref(E, args[1]), VInt):
         r = ref_chain(E, args[0])
         d = E.read_ref(r)
@@ -485,7 +490,7 @@ def dispatch(E, c, tc, args):
                 d.items.append(args[1])
                 return VBool(True)
             return VBool(False)
-    if tc and tc[1] and tc[1].startswith("Index<") and tc[2] == "index":
+    if tc and tc[1] and (tc[1].startswith("Index<") and tc[2] == "index" or tc[1].startswith("IndexMut<") and tc[2] == "index_mut") and isinstance(deref(E, args[1]), VInt):
         r = ref_chain(E, args[0])
         d = E.read_ref(r)
         if isinstance(d, VSeq):
